@@ -65,4 +65,6 @@ ev=obs["programs_stacked_borrows"]+obs["programs_tree_borrows"]
 if not viol and not inc and ev<shards*per: inc.append(f"only {ev} programs ran under Miri")
 json.dump({"stage":"miri-vm","evaluations":ev,"violations":viol,"inconclusive":inc,"observed":obs,"samples":[{"what":"vmiri-vm programs first..first+count per shard under -Zmiri-disable-isolation [+ -Zmiri-tree-borrows]","shards":shards,"per_shard":per}]},open(out,"w"))
 PY
+# coverage-guided stage (thorough tier only): TeX source chosen by libFuzzer, decided by the monitor's own oracle
+"$(dirname "$0")/fuzz.sh" "$TIER" "$OUT" c09_tex_source 1024
 exit 0
